@@ -483,7 +483,7 @@ def run_noninterference(ctx):
 
 
 def run(ctx):
-    n = ctx.n(120, 400)
+    n = ctx.n(120, 1600)
     with RngTap() as tap:
         for it in range(n):
             if ctx.out_of_time():
